@@ -377,3 +377,687 @@ Qed.
 
 Lemma scan_value_fuel f s : (length s < f)%nat -> scan_value f s = scan_val s.
 Proof. intro H. unfold scan_val. apply scan_value_fuel2; lia. Qed.
+
+(* ====================================================================================== *)
+(* Soundness: what a scanner consumed is derivable in the grammar                          *)
+(* ====================================================================================== *)
+Lemma is_wsb_spec b : is_wsb b = true <-> is_ws b.
+Proof. unfold is_wsb, is_ws. rewrite !orb_true_iff, !N.eqb_eq. tauto. Qed.
+
+Lemma is_digitb_spec b : is_digitb b = true <-> DIGIT b.
+Proof. unfold is_digitb, DIGIT. apply in_rng_spec. Qed.
+
+Lemma is_hexb_spec b : is_hexb b = true <-> HEXDIG b.
+Proof. unfold is_hexb, HEXDIG. rewrite !orb_true_iff, is_digitb_spec, !in_rng_spec. tauto. Qed.
+
+Lemma is_escb_spec b : is_escb b = true <-> escapable b.
+Proof. unfold is_escb, escapable. rewrite !orb_true_iff, !N.eqb_eq. tauto. Qed.
+
+Lemma unescaped_cpb_spec cp : unescaped_cpb cp = true <-> unescaped_cp cp.
+Proof. unfold unescaped_cpb, unescaped_cp. rewrite !orb_true_iff, !in_rng_spec. tauto. Qed.
+
+Lemma is_eb_spec b : is_eb b = true <-> is_e b.
+Proof. unfold is_eb, is_e. rewrite !orb_true_iff, !N.eqb_eq. tauto. Qed.
+
+Lemma is_signb_spec b : is_signb b = true <-> is_sign b.
+Proof. unfold is_signb, is_sign. rewrite !orb_true_iff, !N.eqb_eq. tauto. Qed.
+
+Lemma skip_ws_spec s : exists w, s = w ++ skip_ws s /\ ws w.
+Proof.
+  induction s as [|b t [w [E W]]]; cbn [skip_ws].
+  - exists []. split; [reflexivity|constructor].
+  - destruct (is_wsb b) eqn:Eb.
+    + exists (b :: w). split.
+      * cbn [app]. f_equal. exact E.
+      * constructor; [apply is_wsb_spec; exact Eb|exact W].
+    + exists []. split; [reflexivity|constructor].
+Qed.
+
+Lemma skip_digits_spec s : exists d, s = d ++ skip_digits s /\ digits0 d.
+Proof.
+  induction s as [|b t [d [E D]]]; cbn [skip_digits].
+  - exists []. split; [reflexivity|constructor].
+  - destruct (is_digitb b) eqn:Eb.
+    + exists (b :: d). split.
+      * cbn [app]. f_equal. exact E.
+      * constructor; [apply is_digitb_spec; exact Eb|exact D].
+    + exists []. split; [reflexivity|constructor].
+Qed.
+
+Lemma scan_digits1_sound s r : scan_digits1 s = Some r -> exists d, s = d ++ r /\ digits1 d.
+Proof.
+  destruct s as [|b t]; cbn [scan_digits1]; [discriminate|].
+  destruct (is_digitb b) eqn:Eb; [|discriminate]. intro H; injection H as <-.
+  destruct (skip_digits_spec t) as [d [E D]].
+  exists (b :: d). split.
+  - cbn [app]. f_equal. exact E.
+  - constructor; [apply is_digitb_spec; exact Eb|exact D].
+Qed.
+
+Lemma scan_int_sound s r : scan_int s = Some r -> exists i, s = i ++ r /\ int_ i.
+Proof.
+  destruct s as [|b t]; cbn [scan_int]; [discriminate|].
+  destruct (N.eqb_spec b 0x30) as [->|Hne].
+  - intro H; injection H as <-. exists [0x30]. split; [reflexivity|constructor].
+  - destruct (is_digitb b) eqn:Eb; [|discriminate]. intro H; injection H as <-.
+    destruct (skip_digits_spec t) as [d [E D]].
+    exists (b :: d). split.
+    + cbn [app]. f_equal. exact E.
+    + apply is_digitb_spec in Eb. unfold DIGIT in Eb. constructor; [unfold digit1_9; lia|exact D].
+Qed.
+
+Lemma scan_frac_sound s : exists p, s = p ++ scan_frac s /\ optional frac p.
+Proof.
+  assert (Hnil : exists p, s = p ++ s /\ optional frac p).
+  { exists []. split; [reflexivity|left; reflexivity]. }
+  destruct s as [|b t]; cbn [scan_frac]; [exact Hnil|].
+  destruct (N.eqb_spec b 0x2E) as [->|Hne]; [|exact Hnil].
+  destruct (scan_digits1 t) as [r|] eqn:E; [|exact Hnil].
+  apply scan_digits1_sound in E. destruct E as [d [-> D]].
+  exists (0x2E :: d). split; [reflexivity|right; constructor; exact D].
+Qed.
+
+Lemma scan_exp_sound s : exists p, s = p ++ scan_exp s /\ optional exp_ p.
+Proof.
+  assert (Hnil : exists p, s = p ++ s /\ optional exp_ p).
+  { exists []. split; [reflexivity|left; reflexivity]. }
+  destruct s as [|b t]; cbn [scan_exp]; [exact Hnil|].
+  destruct (is_eb b) eqn:Eb; [|exact Hnil]. apply is_eb_spec in Eb.
+  destruct (scan_digits1 (skip_sign t)) as [r|] eqn:E; [|exact Hnil].
+  apply scan_digits1_sound in E. destruct E as [d [E D]].
+  destruct t as [|sg t']; cbn [skip_sign] in E.
+  - destruct D as [b' d' Hb' Hd']; discriminate E.
+  - destruct (is_signb sg) eqn:Es.
+    + apply is_signb_spec in Es. subst t'.
+      exists (b :: sg :: d). split; [reflexivity|right; apply exp_signed; assumption].
+    + exists (b :: d). split; [cbn [app]; f_equal; exact E|right; apply exp_plain; assumption].
+Qed.
+
+Lemma skip_minus_spec s : exists m, s = m ++ skip_minus s /\ optional minus m.
+Proof.
+  assert (Hnil : exists m, s = m ++ s /\ optional minus m).
+  { exists []. split; [reflexivity|left; reflexivity]. }
+  destruct s as [|b t]; cbn [skip_minus]; [exact Hnil|].
+  destruct (N.eqb_spec b 0x2D) as [->|Hne]; [|exact Hnil].
+  exists [0x2D]. split; [reflexivity|right; reflexivity].
+Qed.
+
+Lemma scan_number_sound s r : scan_number s = Some r -> exists n, s = n ++ r /\ number n.
+Proof.
+  unfold scan_number. destruct (scan_int (skip_minus s)) as [r1|] eqn:E; [|discriminate].
+  intro H; injection H as <-.
+  destruct (skip_minus_spec s) as [m [Em M]].
+  apply scan_int_sound in E. destruct E as [i [Ei I]].
+  destruct (scan_frac_sound r1) as [f [Ef F]].
+  destruct (scan_exp_sound (scan_frac r1)) as [e [Ee EE]].
+  exists (m ++ i ++ f ++ e). split; [|constructor; assumption].
+  rewrite Em at 1. rewrite Ei. rewrite Ef at 1. rewrite Ee at 1.
+  rewrite <- !app_assoc. reflexivity.
+Qed.
+
+Lemma scan_chars_sound f : forall s r, scan_chars f s = Some r -> exists cs, s = cs ++ 0x22 :: r /\ chars cs.
+Proof.
+  induction f as [|f IH]; intros s r H; cbn [scan_chars] in H; [discriminate|].
+  destruct s as [|b t]; [discriminate|].
+  destruct (N.eqb_spec b 0x22) as [->|Hq].
+  { injection H as <-. exists []. split; [reflexivity|constructor]. }
+  destruct (N.eqb_spec b 0x5C) as [->|Hb].
+  { destruct t as [|e t']; [discriminate|].
+    destruct (is_escb e) eqn:Ee.
+    { apply IH in H. destruct H as [cs [-> C]].
+      exists ([0x5C; e] ++ cs). split; [reflexivity|].
+      apply chars_app; [apply char_escaped; apply is_escb_spec; exact Ee|exact C]. }
+    destruct (N.eqb_spec e 0x75) as [->|Hu]; [|discriminate].
+    destruct t' as [|h1 [|h2 [|h3 [|h4 t'']]]]; try discriminate.
+    destruct (is_hexb h1 && is_hexb h2 && is_hexb h3 && is_hexb h4) eqn:Eh; [|discriminate].
+    apply andb_true_iff in Eh. destruct Eh as [Eh E4].
+    apply andb_true_iff in Eh. destruct Eh as [Eh E3].
+    apply andb_true_iff in Eh. destruct Eh as [E1 E2].
+    apply IH in H. destruct H as [cs [-> C]].
+    exists ([0x5C; 0x75; h1; h2; h3; h4] ++ cs). split; [reflexivity|].
+    apply chars_app; [apply char_unicode; apply is_hexb_spec; assumption|exact C]. }
+  destruct (scan_utf8 (b :: t)) as [[cp r']|] eqn:E; [|discriminate].
+  destruct (unescaped_cpb cp) eqn:Eu; [|discriminate].
+  apply scan_utf8_sound in E. destruct E as [u [Es U]].
+  apply IH in H. destruct H as [cs [-> C]].
+  exists (u ++ cs). split; [rewrite <- app_assoc; exact Es|].
+  apply chars_app; [|exact C].
+  apply (char_unescaped cp); [exact U|apply unescaped_cpb_spec; exact Eu].
+Qed.
+
+Lemma scan_string_sound s r : scan_string s = Some r -> exists k, s = k ++ r /\ string_ k.
+Proof.
+  destruct s as [|b t]; cbn [scan_string]; [discriminate|].
+  destruct (N.eqb_spec b 0x22) as [->|Hq]; [|discriminate].
+  intro H. apply scan_chars_sound in H. destruct H as [cs [-> C]].
+  exists (0x22 :: cs ++ [0x22]). split; [|constructor; exact C].
+  cbn [app]. rewrite <- app_assoc. reflexivity.
+Qed.
+
+Definition sound_for (P : list N -> Prop) (scan : list N -> option (list N)) : Prop :=
+  forall x y, scan x = Some y -> exists p, x = p ++ y /\ P p.
+(* item followed by skipped blanks *)
+Definition sound_item (P : list N -> Prop) (item : list N -> option (list N)) : Prop :=
+  forall x y, item x = Some y -> exists p w, x = p ++ w ++ y /\ P p /\ ws w.
+
+Section ContainerSound.
+Variables (item : list N -> option (list N)) (close : N) (Item Items : list N -> Prop).
+Hypothesis item_sound : sound_item Item item.
+Hypothesis items_one : forall p, Item p -> Items p.
+Hypothesis items_more : forall p sep ps, Item p -> value_separator sep -> Items ps -> Items (p ++ sep ++ ps).
+
+Lemma scan_tail_sound : forall n s r, scan_tail item close n s = Some r ->
+  forall p w, Item p -> ws w -> exists ps e, p ++ w ++ s = ps ++ e ++ r /\ Items ps /\ structural close e.
+Proof.
+  induction n as [|n IH]; intros s r H p w Hp Hw; cbn [scan_tail] in H; [discriminate|].
+  destruct s as [|c t]; [discriminate|].
+  destruct (N.eqb_spec c close) as [->|Hc].
+  { injection H as <-. exists p, (w ++ [close] ++ []). split; [|split].
+    - cbn [app]. rewrite <- app_assoc. reflexivity.
+    - apply items_one; exact Hp.
+    - exists w, []. split; [exact Hw|split; [constructor|reflexivity]]. }
+  destruct (N.eqb_spec c 0x2C) as [->|Hcomma]; [|discriminate].
+  destruct (item (skip_ws t)) as [s'|] eqn:E; [|discriminate].
+  destruct (skip_ws_spec t) as [w2 [Et W2]].
+  apply item_sound in E. destruct E as [p' [w' [E [Hp' Hw']]]].
+  destruct (IH _ _ H p' w' Hp' Hw') as [ps [e [Eq [Hps He]]]].
+  exists (p ++ (w ++ [0x2C] ++ w2) ++ ps), e. split; [|split].
+  - rewrite Et, E, Eq. rewrite <- !app_assoc. reflexivity.
+  - apply items_more; [exact Hp| |exact Hps].
+    exists w, w2. split; [exact Hw|split; [exact W2|reflexivity]].
+  - exact He.
+Qed.
+
+Lemma scan_container_sound t r : scan_container item close t = Some r ->
+  (exists w, ws w /\ t = w ++ close :: r) \/
+  (exists w ps e, ws w /\ Items ps /\ structural close e /\ t = w ++ ps ++ e ++ r).
+Proof.
+  unfold scan_container. destruct (skip_ws_spec t) as [w [Et W]].
+  destruct (skip_ws t) as [|c t']; [discriminate|].
+  destruct (N.eqb_spec c close) as [->|Hc].
+  { intro H; injection H as <-. left. exists w. split; [exact W|exact Et]. }
+  destruct (item (c :: t')) as [s'|] eqn:E; [|discriminate].
+  intro H. apply item_sound in E. destruct E as [p [w' [E [Hp Hw']]]].
+  destruct (scan_tail_sound _ _ _ H p w' Hp Hw') as [ps [e [Eq [Hps He]]]].
+  right. exists w, ps, e. split; [exact W|split; [exact Hps|split; [exact He|]]].
+  rewrite Et, E, Eq. reflexivity.
+Qed.
+End ContainerSound.
+
+Lemma scan_element_sound val : sound_for value val -> sound_item value (scan_element val).
+Proof.
+  intros Hv x y. unfold scan_element. destruct (val x) as [z|] eqn:E; cbn [option_map]; [|discriminate].
+  intro H; injection H as <-. apply Hv in E. destruct E as [v [-> V]].
+  destruct (skip_ws_spec z) as [w [Ez W]].
+  exists v, w. split; [rewrite <- Ez; reflexivity|split; assumption].
+Qed.
+
+Lemma scan_member_sound val : sound_for value val -> sound_item member (scan_member val).
+Proof.
+  intros Hv x y. unfold scan_member.
+  destruct (scan_string x) as [s1|] eqn:E1; [|discriminate].
+  destruct (skip_ws_spec s1) as [w1 [Es1 W1]].
+  destruct (skip_ws s1) as [|c s2]; [discriminate|].
+  destruct (N.eqb_spec c 0x3A) as [->|Hc]; [|discriminate].
+  destruct (skip_ws_spec s2) as [w2 [Es2 W2]].
+  destruct (val (skip_ws s2)) as [z|] eqn:E3; cbn [option_map]; [|discriminate].
+  intro H; injection H as <-.
+  apply scan_string_sound in E1. destruct E1 as [k [-> K]].
+  apply Hv in E3. destruct E3 as [v [E3 V]].
+  destruct (skip_ws_spec z) as [w [Ez W]].
+  exists (k ++ (w1 ++ [0x3A] ++ w2) ++ v), w. split; [|split].
+  - rewrite Es1, Es2, E3. rewrite Ez at 1. rewrite <- !app_assoc. reflexivity.
+  - constructor; [exact K| |exact V]. exists w1, w2. split; [exact W1|split; [exact W2|reflexivity]].
+  - exact W.
+Qed.
+
+Lemma scan_value_sound f : sound_for value (scan_value f).
+Proof.
+  induction f as [|f IH]; intros s r H; cbn [scan_value] in H; [discriminate|].
+  destruct s as [|b t]; [discriminate|].
+  destruct (b =? 0x22).
+  { apply scan_string_sound in H. destruct H as [k [E K]]. exists k. split; [exact E|apply v_string; exact K]. }
+  destruct (N.eqb_spec b 0x7B) as [->|_].
+  { apply (scan_container_sound _ _ member members (scan_member_sound _ IH) members_one members_more) in H.
+    destruct H as [[w [W ->]]|[w [ps [e [W [Hps [He ->]]]]]]].
+    - exists (([] ++ [0x7B] ++ w) ++ ([] ++ [0x7D] ++ [])). split.
+      + cbn [app]. rewrite <- app_assoc. reflexivity.
+      + apply v_object. apply object_empty.
+        * exists [], w. split; [constructor|split; [exact W|reflexivity]].
+        * exists [], []. split; [constructor|split; [constructor|reflexivity]].
+    - exists (([] ++ [0x7B] ++ w) ++ ps ++ e). split.
+      + cbn [app]. rewrite <- !app_assoc. reflexivity.
+      + apply v_object. apply object_members; [|exact Hps|exact He].
+        exists [], w. split; [constructor|split; [exact W|reflexivity]]. }
+  destruct (N.eqb_spec b 0x5B) as [->|_].
+  { apply (scan_container_sound _ _ value elements (scan_element_sound _ IH) elements_one elements_more) in H.
+    destruct H as [[w [W ->]]|[w [ps [e [W [Hps [He ->]]]]]]].
+    - exists (([] ++ [0x5B] ++ w) ++ ([] ++ [0x5D] ++ [])). split.
+      + cbn [app]. rewrite <- app_assoc. reflexivity.
+      + apply v_array. apply array_empty.
+        * exists [], w. split; [constructor|split; [exact W|reflexivity]].
+        * exists [], []. split; [constructor|split; [constructor|reflexivity]].
+    - exists (([] ++ [0x5B] ++ w) ++ ps ++ e). split.
+      + cbn [app]. rewrite <- !app_assoc. reflexivity.
+      + apply v_array. apply array_elements; [|exact Hps|exact He].
+        exists [], w. split; [constructor|split; [exact W|reflexivity]]. }
+  destruct (b =? 0x66).
+  { apply strip_prefix_app in H. exists lit_false. split; [exact H|constructor]. }
+  destruct (b =? 0x74).
+  { apply strip_prefix_app in H. exists lit_true. split; [exact H|constructor]. }
+  destruct (b =? 0x6E).
+  { apply strip_prefix_app in H. exists lit_null. split; [exact H|constructor]. }
+  apply scan_number_sound in H. destruct H as [n [E Hn]]. exists n. split; [exact E|apply v_number; exact Hn].
+Qed.
+
+Theorem rfc8259_b_sound s : rfc8259_b s = true -> JSON_text s.
+Proof.
+  unfold rfc8259_b, scan_val. intro H.
+  destruct (skip_ws_spec s) as [w1 [Es W1]].
+  destruct (scan_value (S (length (skip_ws s))) (skip_ws s)) as [r|] eqn:E; [|discriminate].
+  apply scan_value_sound in E. destruct E as [v [Ev V]].
+  destruct (skip_ws_spec r) as [w2 [Er W2]].
+  destruct (skip_ws r); [|discriminate].
+  exists w1, v, w2. split; [exact W1|split; [exact V|split; [exact W2|]]].
+  rewrite Es, Ev. rewrite Er at 1. rewrite app_nil_r. reflexivity.
+Qed.
+
+(* ====================================================================================== *)
+(* Completeness: the greedy scanner accepts every derivation, given a FOLLOW condition      *)
+(* ====================================================================================== *)
+(* a property of the first byte of the continuation (vacuous at end of input) *)
+Definition hd_ok (P : N -> Prop) (r : list N) : Prop :=
+  match r with [] => True | b :: _ => P b end.
+Definition nodigit := hd_ok (fun b => is_digitb b = false).
+Definition numfollow := hd_ok (fun b => is_digitb b = false /\ b <> 0x2E /\ is_eb b = false).
+(* what can follow a value inside a JSON text: ws, ',', ']', '}' or the end *)
+Definition follow := hd_ok (fun b => is_wsb b = true \/ b = 0x2C \/ b = 0x5D \/ b = 0x7D).
+
+Lemma skip_ws_app w r : ws w -> skip_ws (w ++ r) = skip_ws r.
+Proof.
+  induction 1 as [|b s Hb W IH]; cbn [app skip_ws]; [reflexivity|].
+  apply is_wsb_spec in Hb. rewrite Hb. exact IH.
+Qed.
+
+Lemma skip_ws_ws w : ws w -> skip_ws w = [].
+Proof. intro W. rewrite <- (app_nil_r w). rewrite skip_ws_app by exact W. reflexivity. Qed.
+
+Lemma skip_ws_cons_nows b t : is_wsb b = false -> skip_ws (b :: t) = b :: t.
+Proof. intro H. cbn [skip_ws]. rewrite H. reflexivity. Qed.
+
+Lemma skip_digits_complete d r : digits0 d -> nodigit r -> skip_digits (d ++ r) = r.
+Proof.
+  intros D Hr. induction D as [|b s Hb D IH]; cbn [app].
+  - destruct r as [|b t]; [reflexivity|]. cbn in Hr. cbn [skip_digits]. rewrite Hr. reflexivity.
+  - cbn [skip_digits]. apply is_digitb_spec in Hb. rewrite Hb. exact IH.
+Qed.
+
+Lemma scan_digits1_complete d r : digits1 d -> nodigit r -> scan_digits1 (d ++ r) = Some r.
+Proof.
+  intros D Hr. destruct D as [b s Hb D]. cbn [app scan_digits1].
+  apply is_digitb_spec in Hb. rewrite Hb. rewrite skip_digits_complete by assumption. reflexivity.
+Qed.
+
+Lemma scan_int_complete i r : int_ i -> nodigit r -> scan_int (i ++ r) = Some r.
+Proof.
+  intros I Hr. destruct I as [|b s Hb D]; cbn [app scan_int].
+  - reflexivity.
+  - unfold digit1_9 in Hb. destruct (N.eqb_spec b 0x30) as [E|_]; [lia|].
+    assert (Hd : is_digitb b = true) by (apply is_digitb_spec; unfold DIGIT; lia).
+    rewrite Hd. rewrite skip_digits_complete by assumption. reflexivity.
+Qed.
+
+Lemma scan_frac_none r : hd_ok (fun b => b <> 0x2E) r -> scan_frac r = r.
+Proof.
+  destruct r as [|b t]; [reflexivity|]. cbn [hd_ok scan_frac]. intro H.
+  destruct (N.eqb_spec b 0x2E) as [E|_]; [contradiction|reflexivity].
+Qed.
+
+Lemma scan_frac_some f r : frac f -> nodigit r -> scan_frac (f ++ r) = r.
+Proof.
+  intros F Hr. destruct F as [d D]. cbn [app scan_frac].
+  change (0x2E =? 0x2E) with true. cbv iota.
+  rewrite scan_digits1_complete by assumption. reflexivity.
+Qed.
+
+Lemma scan_exp_none r : hd_ok (fun b => is_eb b = false) r -> scan_exp r = r.
+Proof.
+  destruct r as [|b t]; [reflexivity|]. cbn [hd_ok scan_exp]. intro H. rewrite H. reflexivity.
+Qed.
+
+Lemma scan_exp_some e r : exp_ e -> nodigit r -> scan_exp (e ++ r) = r.
+Proof.
+  intros E Hr. destruct E as [e d He D|e sg d He Hs D]; cbn [app scan_exp];
+    apply is_eb_spec in He; rewrite He.
+  - assert (Hk : skip_sign (d ++ r) = d ++ r).
+    { destruct D as [b s Hb D]. cbn [app skip_sign].
+      assert (Hsg : is_signb b = false).
+      { unfold DIGIT in Hb. unfold is_signb. apply orb_false_iff. split; apply N.eqb_neq; lia. }
+      rewrite Hsg. reflexivity. }
+    rewrite Hk. rewrite scan_digits1_complete by assumption. reflexivity.
+  - cbn [skip_sign]. apply is_signb_spec in Hs. rewrite Hs.
+    rewrite scan_digits1_complete by assumption. reflexivity.
+Qed.
+
+Lemma int_head i : int_ i -> exists b t, i = b :: t /\ is_digitb b = true.
+Proof.
+  intro I. destruct I as [|b s Hb D].
+  - exists 0x30, []. split; reflexivity.
+  - exists b, s. split; [reflexivity|]. apply is_digitb_spec. unfold digit1_9 in Hb. unfold DIGIT. lia.
+Qed.
+
+Lemma is_eb_digit b : is_eb b = true -> is_digitb b = false /\ b <> 0x2E.
+Proof. intro H. apply is_eb_spec in H. destruct H as [->| ->]; split; try reflexivity; discriminate. Qed.
+
+Lemma scan_number_complete n r : number n -> numfollow r -> scan_number (n ++ r) = Some r.
+Proof.
+  intros Hn Hr. destruct Hn as [m i f e M I F E].
+  rewrite <- !app_assoc. unfold scan_number.
+  assert (Hr1 : nodigit r /\ hd_ok (fun b => b <> 0x2E) r /\ hd_ok (fun b => is_eb b = false) r).
+  { destruct r as [|b t]; cbn in Hr |- *; tauto. }
+  destruct Hr1 as [Hr1 [Hr2 Hr3]].
+  assert (A1 : nodigit (e ++ r) /\ hd_ok (fun b => b <> 0x2E) (e ++ r)).
+  { destruct E as [->|E]; [split; assumption|].
+    destruct E as [e d He D|e sg d He Hs D]; cbn [app nodigit hd_ok];
+      apply is_eb_spec in He; apply is_eb_digit in He; exact He. }
+  destruct A1 as [A1 A1'].
+  assert (A2 : nodigit (f ++ e ++ r)).
+  { destruct F as [->|F]; [exact A1|]. destruct F as [d D]. reflexivity. }
+  assert (Hm : skip_minus (m ++ i ++ f ++ e ++ r) = i ++ f ++ e ++ r).
+  { destruct M as [->| ->]; [|reflexivity].
+    destruct (int_head i I) as [b [t [-> Hb]]]. cbn [app skip_minus].
+    apply is_digitb_spec in Hb. unfold DIGIT in Hb.
+    destruct (N.eqb_spec b 0x2D) as [Eb|_]; [lia|reflexivity]. }
+  rewrite Hm. rewrite scan_int_complete by assumption.
+  assert (Hf : scan_frac (f ++ e ++ r) = e ++ r).
+  { destruct F as [->|F]; [apply scan_frac_none; exact A1'|apply scan_frac_some; assumption]. }
+  rewrite Hf.
+  assert (He : scan_exp (e ++ r) = r).
+  { destruct E as [->|E]; [apply scan_exp_none; exact Hr3|apply scan_exp_some; assumption]. }
+  rewrite He. reflexivity.
+Qed.
+
+Lemma scan_chars_complete cs : chars cs -> forall f r, (length cs < f)%nat ->
+  scan_chars f (cs ++ 0x22 :: r) = Some r.
+Proof.
+  induction 1 as [|c s Hc Hs IH]; intros f r Hf.
+  - destruct f as [|f]; [lia|]. reflexivity.
+  - destruct f as [|f]; [lia|]. rewrite <- app_assoc. rewrite app_length in Hf.
+    destruct Hc as [cp u U Ucp|b Hb|h1 h2 h3 h4 H1 H2 H3 H4].
+    + destruct u as [|b0 u'].
+      { apply utf8_enc_nonempty in U. cbn in U. lia. }
+      pose proof (utf8_enc_head _ _ _ U) as Hh. unfold unescaped_cp in Ucp.
+      pose proof (scan_utf8_complete cp _ (s ++ 0x22 :: r) U) as Hu.
+      cbn [app] in Hu |- *. cbn [scan_chars].
+      destruct (N.eqb_spec b0 0x22) as [E|_]; [lia|].
+      destruct (N.eqb_spec b0 0x5C) as [E|_]; [lia|].
+      rewrite Hu.
+      assert (Hb : unescaped_cpb cp = true) by (apply unescaped_cpb_spec; exact Ucp).
+      rewrite Hb. apply IH. cbn [length] in Hf. lia.
+    + cbn [app scan_chars]. change (0x5C =? 0x22) with false. change (0x5C =? 0x5C) with true. cbv iota.
+      apply is_escb_spec in Hb. rewrite Hb. apply IH. cbn [length] in Hf. lia.
+    + cbn [app scan_chars]. change (0x5C =? 0x22) with false. change (0x5C =? 0x5C) with true.
+      change (is_escb 0x75) with false. change (0x75 =? 0x75) with true. cbv iota.
+      apply is_hexb_spec in H1, H2, H3, H4. rewrite H1, H2, H3, H4. cbn [andb].
+      apply IH. cbn [length] in Hf. lia.
+Qed.
+
+Lemma string_complete k r : string_ k -> scan_string (k ++ r) = Some r.
+Proof.
+  intro K. destruct K as [cs C]. cbn [app scan_string].
+  change (0x22 =? 0x22) with true. cbv iota.
+  rewrite <- app_assoc. cbn [app]. apply scan_chars_complete; [exact C|].
+  rewrite app_length. lia.
+Qed.
+
+Lemma string_head k : string_ k -> exists t, k = 0x22 :: t.
+Proof. intro K. destruct K as [cs C]. eexists; reflexivity. Qed.
+
+Lemma number_head n : number n -> exists b t, n = b :: t /\ (b = 0x2D \/ is_digitb b = true).
+Proof.
+  intro Hn. destruct Hn as [m i f e M I F E].
+  destruct (int_head i I) as [b [t [-> Hb]]].
+  destruct M as [->| ->]; cbn [app].
+  - exists b, (t ++ f ++ e). split; [reflexivity|right; exact Hb].
+  - eexists _, _. split; [reflexivity|left; reflexivity].
+Qed.
+
+Lemma numhead_nows b : b = 0x2D \/ is_digitb b = true -> is_wsb b = false.
+Proof.
+  intros [->|H]; [reflexivity|]. apply is_digitb_spec in H. unfold DIGIT in H.
+  unfold is_wsb. repeat (apply orb_false_iff; split); apply N.eqb_neq; lia.
+Qed.
+
+Lemma scan_value_number f b t : b = 0x2D \/ is_digitb b = true ->
+  scan_value (S f) (b :: t) = scan_number (b :: t).
+Proof.
+  intros [->|H]; [reflexivity|]. cbn [scan_value].
+  apply is_digitb_spec in H. unfold DIGIT in H.
+  repeat (match goal with |- context [?a =? ?c] => destruct (N.eqb_spec a c); [lia|] end).
+  reflexivity.
+Qed.
+
+Lemma follow_numfollow r : follow r -> numfollow r.
+Proof.
+  destruct r as [|b t]; [exact (fun x => x)|]. cbn [follow numfollow hd_ok].
+  intros [H|[->|[->| ->]]]; [|repeat split; try reflexivity; discriminate ..].
+  apply is_wsb_spec in H. destruct H as [->|[->|[->| ->]]]; repeat split; try reflexivity; discriminate.
+Qed.
+
+Lemma follow_structural w c x : ws w -> c = 0x2C \/ c = 0x5D \/ c = 0x7D -> follow (w ++ c :: x).
+Proof.
+  intros W Hc. destruct W as [|b s Hb W]; cbn [app follow hd_ok].
+  - right. exact Hc.
+  - left. apply is_wsb_spec. exact Hb.
+Qed.
+
+Lemma follow_ws w : ws w -> follow w.
+Proof. intro W. destruct W as [|b s Hb W]; cbn [follow hd_ok]; [exact I|left; apply is_wsb_spec; exact Hb]. Qed.
+
+(* ---------- containers, generically in the item scanner ---------- *)
+Section ItemsComplete.
+Variables (item : list N -> option (list N)) (close : N).
+Hypothesis Hclose : close = 0x5D \/ close = 0x7D.
+Hypothesis Hnl : nonlen item.
+Hypothesis item_nil : item [] = None.
+Hypothesis item_close : forall t, item (close :: t) = None.
+
+(* x = item *( value-separator item ) ws close r' : the first item is found (after blanks) and
+   scan_tail then runs up to and including the closing bracket *)
+Definition items_ok (x r' : list N) : Prop :=
+  exists s', item (skip_ws x) = Some s' /\
+             forall n, (length s' < n)%nat -> scan_tail item close n s' = Some r'.
+
+Lemma close_nows : is_wsb close = false.
+Proof using All. destruct Hclose as [->| ->]; reflexivity. Qed.
+
+Lemma close_not_comma : (close =? 0x2C) = false.
+Proof using All. destruct Hclose as [->| ->]; reflexivity. Qed.
+
+Lemma items_ok_one p w r' : ws w ->
+  item (skip_ws (p ++ w ++ close :: r')) = Some (skip_ws (w ++ close :: r')) ->
+  items_ok (p ++ w ++ close :: r') r'.
+Proof using All.
+  intros W H. exists (close :: r'). split.
+  - rewrite H. rewrite skip_ws_app by exact W. rewrite skip_ws_cons_nows by exact close_nows. reflexivity.
+  - intros n Hn. destruct n as [|n]; [lia|]. cbn [scan_tail]. rewrite N.eqb_refl. reflexivity.
+Qed.
+
+Lemma items_ok_more p u1 u2 rest r' : ws u1 -> ws u2 ->
+  item (skip_ws (p ++ u1 ++ 0x2C :: u2 ++ rest)) = Some (skip_ws (u1 ++ 0x2C :: u2 ++ rest)) ->
+  items_ok rest r' ->
+  items_ok (p ++ u1 ++ 0x2C :: u2 ++ rest) r'.
+Proof using All.
+  intros U1 U2 H [s' [Hs' Ht]]. exists (0x2C :: u2 ++ rest). split.
+  - rewrite H. rewrite skip_ws_app by exact U1. rewrite skip_ws_cons_nows by reflexivity. reflexivity.
+  - intros n Hn. destruct n as [|n]; [lia|]. cbn [scan_tail].
+    assert (Hc : (0x2C =? close) = false).
+    { rewrite N.eqb_sym. exact close_not_comma. }
+    rewrite Hc. change (0x2C =? 0x2C) with true. cbv iota.
+    rewrite skip_ws_app by exact U2. rewrite Hs'. apply Ht.
+    apply Hnl in Hs'. pose proof (skip_ws_len rest). cbn [length] in Hn. rewrite app_length in Hn. lia.
+Qed.
+
+Lemma scan_container_empty w t : ws w -> scan_container item close (w ++ close :: t) = Some t.
+Proof using All.
+  intro W. unfold scan_container. rewrite skip_ws_app by exact W.
+  rewrite skip_ws_cons_nows by exact close_nows. rewrite N.eqb_refl. reflexivity.
+Qed.
+
+Lemma scan_container_items w x r' : ws w -> items_ok x r' -> scan_container item close (w ++ x) = Some r'.
+Proof using All.
+  intros W [s' [Hs' Ht]]. unfold scan_container. rewrite skip_ws_app by exact W.
+  destruct (skip_ws x) as [|c t'] eqn:E.
+  { rewrite item_nil in Hs'. discriminate Hs'. }
+  destruct (N.eqb_spec c close) as [->|Hc].
+  { rewrite item_close in Hs'. discriminate Hs'. }
+  rewrite Hs'. apply Ht. lia.
+Qed.
+End ItemsComplete.
+
+Lemma scan_member_step val s s1 s2 : scan_string s = Some s1 -> skip_ws s1 = 0x3A :: s2 ->
+  scan_member val s = option_map skip_ws (val (skip_ws s2)).
+Proof. intros H1 H2. unfold scan_member. rewrite H1, H2. reflexivity. Qed.
+
+Lemma scan_member_nil val : scan_member val [] = None.
+Proof. reflexivity. Qed.
+Lemma scan_member_close val t : scan_member val (0x7D :: t) = None.
+Proof. reflexivity. Qed.
+Lemma scan_element_nil f : scan_element (scan_value f) [] = None.
+Proof. destruct f; reflexivity. Qed.
+Lemma scan_element_close f t : scan_element (scan_value f) (0x5D :: t) = None.
+Proof. destruct f; reflexivity. Qed.
+
+Lemma ws_app a b : ws a -> ws b -> ws (a ++ b).
+Proof. intros A B. induction A as [|x s Hx A IH]; cbn [app]; [exact B|constructor; assumption]. Qed.
+
+Lemma scan_value_obj f t : scan_value (S f) (0x7B :: t) = scan_container (scan_member (scan_value f)) 0x7D t.
+Proof. reflexivity. Qed.
+Lemma scan_value_arr f t : scan_value (S f) (0x5B :: t) = scan_container (scan_element (scan_value f)) 0x5D t.
+Proof. reflexivity. Qed.
+
+Local Ltac len := repeat (progress (rewrite ?app_length in *; cbn [length] in * )); lia.
+
+Scheme value_min := Minimality for value Sort Prop
+with object_min := Minimality for object Sort Prop
+with members_min := Minimality for members Sort Prop
+with member_min := Minimality for member Sort Prop
+with array_min := Minimality for array Sort Prop
+with elements_min := Minimality for elements Sort Prop.
+Combined Scheme value_mutind from value_min, object_min, members_min, member_min, array_min, elements_min.
+
+(* "ws value ws" scanned with fuel f *)
+Definition Pvalue (v : list N) : Prop := forall f r, (length (v ++ r) < f)%nat -> follow r ->
+  option_map skip_ws (scan_value f (skip_ws (v ++ r))) = Some (skip_ws r).
+Definition Pcontainer (o : list N) : Prop := forall f r, (length (o ++ r) <= f)%nat ->
+  option_map skip_ws (scan_value (S f) (skip_ws (o ++ r))) = Some (skip_ws r).
+Definition Pmember (m : list N) : Prop := forall f r, (length (m ++ r) < f)%nat -> follow r ->
+  scan_member (scan_value f) (skip_ws (m ++ r)) = Some (skip_ws r).
+Definition Pmembers (ms : list N) : Prop := forall f w r', ws w -> (length (ms ++ w ++ 0x7D%N :: r') < f)%nat ->
+  items_ok (scan_member (scan_value f)) 0x7D (ms ++ w ++ 0x7D :: r') r'.
+Definition Pelements (vs : list N) : Prop := forall f w r', ws w -> (length (vs ++ w ++ 0x5D%N :: r') < f)%nat ->
+  items_ok (scan_element (scan_value f)) 0x5D (vs ++ w ++ 0x5D :: r') r'.
+
+Lemma Pvalue_lit l : (l = lit_false \/ l = lit_null \/ l = lit_true) -> Pvalue l.
+Proof.
+  intros H f r Hf Hr. destruct f as [|f]; [lia|].
+  destruct H as [->|[->| ->]]; reflexivity.
+Qed.
+
+Lemma complete_all :
+  (forall v, value v -> Pvalue v) /\ (forall o, object o -> Pcontainer o) /\
+  (forall ms, members ms -> Pmembers ms) /\ (forall m, member m -> Pmember m) /\
+  (forall a, array a -> Pcontainer a) /\ (forall vs, elements vs -> Pelements vs).
+Proof.
+  apply value_mutind.
+  - (* false *) apply Pvalue_lit; tauto.
+  - (* null *) apply Pvalue_lit; tauto.
+  - (* true *) apply Pvalue_lit; tauto.
+  - (* object *) intros s _ IH f r Hf Hr. destruct f as [|f]; [lia|]. apply IH. lia.
+  - (* array *) intros s _ IH f r Hf Hr. destruct f as [|f]; [lia|]. apply IH. lia.
+  - (* number *) intros s Hn f r Hf Hr. destruct f as [|f]; [lia|].
+    pose proof (scan_number_complete s r Hn (follow_numfollow r Hr)) as Hc.
+    destruct (number_head s Hn) as [b [t [-> Hb]]]. cbn [app] in Hc |- *.
+    rewrite skip_ws_cons_nows by (apply numhead_nows; exact Hb).
+    rewrite scan_value_number by exact Hb. rewrite Hc. reflexivity.
+  - (* string *) intros s Hs f r Hf Hr. destruct f as [|f]; [lia|].
+    pose proof (string_complete s r Hs) as Hc.
+    destruct (string_head s Hs) as [t ->]. cbn [app] in Hc |- *.
+    rewrite skip_ws_cons_nows by reflexivity.
+    change (scan_value (S f) (0x22 :: t ++ r)) with (scan_string (0x22 :: t ++ r)).
+    rewrite Hc. reflexivity.
+  - (* object_empty *) intros b e [w1 [w2 [W1 [W2 ->]]]] [u1 [u2 [U1 [U2 ->]]]] f r Hf.
+    rewrite <- !app_assoc. cbn [app]. rewrite skip_ws_app by exact W1.
+    rewrite skip_ws_cons_nows by reflexivity. rewrite scan_value_obj.
+    rewrite (app_assoc w2 u1).
+    rewrite (scan_container_empty _ 0x7D (or_intror eq_refl) (scan_member_nonlen f)
+               (scan_member_nil _) (scan_member_close _) (w2 ++ u1)) by (apply ws_app; assumption).
+    cbn [option_map]. rewrite skip_ws_app by exact U2. reflexivity.
+  - (* object_members *) intros b ms e [w1 [w2 [W1 [W2 ->]]]] _ IH [u1 [u2 [U1 [U2 ->]]]] f r Hf.
+    rewrite <- !app_assoc in Hf |- *. cbn [app] in Hf |- *. rewrite skip_ws_app by exact W1.
+    rewrite skip_ws_cons_nows by reflexivity. rewrite scan_value_obj.
+    rewrite (scan_container_items _ 0x7D (or_intror eq_refl) (scan_member_nonlen f)
+               (scan_member_nil _) (scan_member_close _) w2 _ (u2 ++ r) W2).
+    + cbn [option_map]. rewrite skip_ws_app by exact U2. reflexivity.
+    + apply IH; [exact U1|len].
+  - (* members_one *) intros m _ IH f w r' W Hf.
+    apply (items_ok_one _ 0x7D (or_intror eq_refl) (scan_member_nonlen f)
+             (scan_member_nil _) (scan_member_close _) m w r' W).
+    apply IH; [exact Hf|apply follow_structural; [exact W|tauto]].
+  - (* members_more *) intros m sep ms _ IHm [u1 [u2 [U1 [U2 ->]]]] _ IHms f w r' W Hf.
+    rewrite <- !app_assoc in Hf |- *. cbn [app] in Hf |- *.
+    apply (items_ok_more _ 0x7D (or_intror eq_refl) (scan_member_nonlen f)
+             (scan_member_nil _) (scan_member_close _) m u1 u2 _ r' U1 U2).
+    + apply IHm; [exact Hf|apply follow_structural; [exact U1|tauto]].
+    + apply IHms; [exact W|len].
+  - (* member *) intros k ns v Hk [u1 [u2 [U1 [U2 ->]]]] _ IHv f r Hf Hr.
+    rewrite <- !app_assoc in Hf |- *. cbn [app] in Hf |- *.
+    assert (Hsk : forall x, skip_ws (k ++ x) = k ++ x).
+    { intro x. destruct (string_head k Hk) as [t ->]. reflexivity. }
+    rewrite Hsk.
+    rewrite (scan_member_step (scan_value f) _ _ (u2 ++ v ++ r) (string_complete k _ Hk))
+      by (rewrite skip_ws_app by exact U1; reflexivity).
+    rewrite skip_ws_app by exact U2. apply IHv; [len|exact Hr].
+  - (* array_empty *) intros b e [w1 [w2 [W1 [W2 ->]]]] [u1 [u2 [U1 [U2 ->]]]] f r Hf.
+    rewrite <- !app_assoc. cbn [app]. rewrite skip_ws_app by exact W1.
+    rewrite skip_ws_cons_nows by reflexivity. rewrite scan_value_arr.
+    rewrite (app_assoc w2 u1).
+    rewrite (scan_container_empty _ 0x5D (or_introl eq_refl) (scan_element_nonlen f)
+               (scan_element_nil _) (scan_element_close _) (w2 ++ u1)) by (apply ws_app; assumption).
+    cbn [option_map]. rewrite skip_ws_app by exact U2. reflexivity.
+  - (* array_elements *) intros b vs e [w1 [w2 [W1 [W2 ->]]]] _ IH [u1 [u2 [U1 [U2 ->]]]] f r Hf.
+    rewrite <- !app_assoc in Hf |- *. cbn [app] in Hf |- *. rewrite skip_ws_app by exact W1.
+    rewrite skip_ws_cons_nows by reflexivity. rewrite scan_value_arr.
+    rewrite (scan_container_items _ 0x5D (or_introl eq_refl) (scan_element_nonlen f)
+               (scan_element_nil _) (scan_element_close _) w2 _ (u2 ++ r) W2).
+    + cbn [option_map]. rewrite skip_ws_app by exact U2. reflexivity.
+    + apply IH; [exact U1|len].
+  - (* elements_one *) intros v _ IH f w r' W Hf.
+    apply (items_ok_one _ 0x5D (or_introl eq_refl) (scan_element_nonlen f)
+             (scan_element_nil _) (scan_element_close _) v w r' W).
+    unfold scan_element. apply IH; [exact Hf|apply follow_structural; [exact W|tauto]].
+  - (* elements_more *) intros v sep vs _ IHv [u1 [u2 [U1 [U2 ->]]]] _ IHvs f w r' W Hf.
+    rewrite <- !app_assoc in Hf |- *. cbn [app] in Hf |- *.
+    apply (items_ok_more _ 0x5D (or_introl eq_refl) (scan_element_nonlen f)
+             (scan_element_nil _) (scan_element_close _) v u1 u2 _ r' U1 U2).
+    + unfold scan_element. apply IHv; [exact Hf|apply follow_structural; [exact U1|tauto]].
+    + apply IHvs; [exact W|len].
+Qed.
+
+Lemma value_complete v : value v -> forall f r, (length (v ++ r) < f)%nat -> follow r ->
+  option_map skip_ws (scan_value f (skip_ws (v ++ r))) = Some (skip_ws r).
+Proof. exact (proj1 complete_all v). Qed.
+
+Theorem rfc8259_b_complete s : JSON_text s -> rfc8259_b s = true.
+Proof.
+  intros [w1 [v [w2 [W1 [V [W2 ->]]]]]]. unfold rfc8259_b.
+  rewrite skip_ws_app by exact W1.
+  pose proof (value_complete v V (S (length (v ++ w2))) w2 (Nat.lt_succ_diag_r _) (follow_ws w2 W2)) as H.
+  rewrite scan_value_fuel in H by (pose proof (skip_ws_len (v ++ w2)); lia).
+  destruct (scan_val (skip_ws (v ++ w2))) as [r|]; cbn [option_map] in H; [|discriminate H].
+  injection H as H. rewrite H. rewrite skip_ws_ws by exact W2. reflexivity.
+Qed.
+
+Theorem rfc8259_b_correct : forall s, rfc8259_b s = true <-> JSON_text s.
+Proof. intro s. split; [apply rfc8259_b_sound|apply rfc8259_b_complete]. Qed.
+
